@@ -6,7 +6,7 @@ import io
 import os
 import tempfile
 
-from ..core import Tally, fmap  # noqa: F401
+from ..core import Tally, vary_buf, fmap  # noqa: F401
 from .. import s2c, tlc
 
 ENGINE = "cuckoo"
@@ -210,7 +210,7 @@ class Ctx:
             f.export(path)
             g = self.cls.load_error_rate(self.p["er"], path, hash_function=hf) if self.p.get("er") else self.cls(filepath=path, hash_function=hf)
         else:
-            data = bytes(f)
+            data = vary_buf(bytes(f)) if self.counting else bytes(f)      # the plain filter's loader takes bytes only
             g = self.cls.frombytes(data, error_rate=self.p["er"], hash_function=hf) if self.p.get("er") else self.cls.frombytes(data, hash_function=hf)
         if not self.p.get("er"):
             g.fingerprint_size = self.p.get("finger_size", 4)
